@@ -5,7 +5,9 @@ package main
 import (
 	"context"
 	"fmt"
+	"github.com/sourcenetwork/defradb/client"
 	"os"
+	"strings"
 
 	"github.com/sourcenetwork/defradb/internal/verifh/vkv"
 	"github.com/sourcenetwork/defradb/internal/verifh/world"
@@ -22,8 +24,29 @@ func main() {
 		fmt.Println("schema error:", err)
 		return
 	}
+	defer func() {
+		if os.Getenv("KEYS") != "" {
+			st.Snapshot().Each(func(k string, v []byte) {
+				if strings.HasPrefix(k, os.Getenv("KEYS")) {
+					fmt.Printf("  %q = %x\n", k, v)
+				}
+			})
+		}
+	}()
 	if os.Getenv("OPS") != "" {
 		st.SetHook(func(o *vkv.Op) error { fmt.Println("   op", o.Kind, o.Key); return nil })
+	}
+	if f := os.Getenv("IXCREATE"); f != "" {
+		c, _ := d.GetCollectionByName(ctx, "T")
+		desc, err := c.CreateIndex(ctx, client.IndexCreateRequest{Fields: []client.IndexedFieldDescription{{Name: f}}})
+		fmt.Printf("created %+v %v\n", desc, err)
+	}
+	if os.Getenv("IX") != "" {
+		cols, _ := d.GetCollections(ctx, client.CollectionFetchOptions{})
+		for _, c := range cols {
+			ix, err := c.GetIndexes(ctx)
+			fmt.Printf("collection %s indexes %+v %v\n", c.Name(), ix, err)
+		}
 	}
 	for _, q := range os.Args[2:] {
 		data, errs, hung, pan := world.ExecGuard(ctx, d, q)
